@@ -39,6 +39,12 @@ def gen_body(rng, boundary):
     }[kind]
     if kind == "dehyphenated" and ("-" not in boundary.strip("-") or not deh):
         kind, body = "text", b"plain value"
+    if kind == "two" and boundary.startswith("-") and boundary.lstrip("-"):
+        # whole lines made of the boundary with some or all of its leading hyphens removed (shorter than the boundary,
+        # so the boundary itself does not occur)
+        vs = [v for v in dict.fromkeys([boundary.lstrip("-"), boundary[1:], boundary[2:], boundary.lstrip("-") + "--", "--" + boundary.lstrip("-")]) if v and boundary not in v and ("--" + boundary) not in v]
+        if vs:
+            kind, body = "boundary-minus-leading-hyphens", b"\r\n".join([b"first"] + [v.encode() for v in vs] + [b"last"])
     if kind == "text" and rng.chance(1, 2):
         # lines that resemble the delimiter without containing the boundary: other letter case, one character short / changed
         alt = None
@@ -201,7 +207,7 @@ def run(c):
             if spelling == "browser-parameter":
                 c.seen("browser-style parameter")
             rp = {"boundary": b, "boundary_class": bclass, "parse_spelling": spelling, "lane": lane,
-                  "parts": [{"headers": p["headers"], "kind": p["kind"], "body_b64": base64.b64encode(p["body"][:200]).decode()} for p in parts]}
+                  "parts": [{"headers": p["headers"], "kind": p["kind"], "body_b64": base64.b64encode(p["body"] if len(p["body"]) <= 4096 else p["body"][:200]).decode(), "body_len": len(p["body"])} for p in parts]}
             if o.outcome in ("panic", "died", "timeout"):
                 sig = c.crash("FormMultipartData::parse(generate(parts))", o, cs, rp)
                 continue
